@@ -155,6 +155,8 @@ class State:
         s.lifted = {k: copy_value(v, memo) for k, v in self.lifted.items()}
         s.ghost = {k: copy_value(v, memo) for k, v in self.ghost.items()}
         s.old = self.old
+        s.loop_heads = list(getattr(self, 'loop_heads', []))
+        s.try_stack = list(getattr(self, 'try_stack', []))
         s.trace = list(self.trace)
         s._memo = memo
         return s
